@@ -545,6 +545,45 @@ pub fn child(ctx: &Ctx) -> i32 {
     )
 }
 
+/// run one stuck input again, alone (hang confirmation): load, every switch set, a few
+/// documents, validate. Returns when all of that returns.
+pub fn one(path: &str) -> i32 {
+    let Ok(text) = std::fs::read_to_string(path) else { return 2 };
+    let Ok(v) = serde_json::from_str::<serde_json::Value>(&text) else { return 2 };
+    let c = if v.get("case").is_some() { &v["case"] } else { &v };
+    let Some(input) = c["input"].as_str() else {
+        println!("no input in {}", path);
+        return 2;
+    };
+    println!("layer={} input={:?}", c["layer"].as_str().unwrap_or("?"), input.chars().take(300).collect::<String>());
+    let rule = match eng::load(input) {
+        Ok(Load::Ok(r)) => *r,
+        _ => {
+            println!("the input does not load (any more)");
+            return 0;
+        }
+    };
+    let mut fields = vec![];
+    if let Ok(y) = serde_yaml::from_str::<Y>(input) {
+        if let Some(det) = y.get("detection") {
+            rule_fields(det, &mut fields);
+        }
+    }
+    let mut rng = Rng::new(1, "C03-one", 0);
+    let docs: Vec<DVal> = (0..6).map(|_| hostile_doc(&mut rng, &fields)).collect();
+    for sw in Sw::ALL16 {
+        let o = if sw.0 == 0 { Ok(rule.clone()) } else { eng::optimise(&rule, sw) };
+        if let Ok(o) = o {
+            for d in &docs {
+                let _ = eng::matches(&o, &to_yaml_map(d));
+            }
+            let _ = eng::validate(&o);
+        }
+        println!("optimise[{}] and matching returned", sw.name());
+    }
+    0
+}
+
 pub fn run(ctx: &Ctx) -> i32 {
     crate::c04::run(ctx, "c03")
 }
